@@ -108,7 +108,7 @@ def nested_cases(rng):
 
 def generate(tier, seed):
     rng = C.rng_for(seed, "C05")
-    n = 4000 if tier == "quick" else 100000
+    n = 10000 if tier == "quick" else 300000
     lines, nt = [], 0
     seen = set()
     for _ in range(n):
